@@ -62,7 +62,9 @@ MANIFEST = dict(
           "drawn from a replaced version's requirement). Reachability is proved and checked along edges that are "
           "requirements of their source version; the prerelease mode of every edge is pinned to findMatches' rule; the "
           "candidates of every criterion are proved to be exactly the versions all its requirements admit in that mode, minus "
-          "the incompatibilities, for providers answering in a consistent order (refuted otherwise, witness replayed on Go). Model tied "
+          "the incompatibilities, for providers answering in a consistent order (refuted otherwise, witness replayed on Go); a reported requirements "
+          "conflict, and the graph-level error raised while the direct dependencies are merged, are proved to be real (no "
+          "admitted version exists); completeness of the backtracking search is not proved. Model tied "
           "to the code by differential execution on recorded client tables; all clauses also evaluated directly on Go's graphs."),
     note=("Trusted: Coq kernel (+vm_compute), gotables, extraction and driver.ml, Go harness, python generator/oracle, "
           "marker and semver functions as oracles (C16, C03). Hand-written model validated by execution, not verified "
